@@ -631,8 +631,9 @@ func execBigClose(c BigCloseCase, bound time.Duration) error {
 		}
 		dl := time.Now().Add(3 * bound)
 		for env.log.Len() < 2 {
-			if env.svc.VerifActiveConnections() == 0 && env.log.Len() < 2 {
-				time.Sleep(5 * time.Millisecond)
+			// (the first call has been dispatched, so the connection was accepted; no handler is active any more, so it has ended)
+			if env.log.Len() >= 1 && env.svc.VerifActiveConnections() == 0 {
+				time.Sleep(20 * time.Millisecond)
 				if env.log.Len() < 2 {
 					return fmt.Errorf("%s: Send of a oneway call with %d MiB of parameters returned nil and the client closed its connection, but the service's connection ended without the call having been dispatched: the message was cut short", c.Transport, c.MiB)
 				}
